@@ -5,6 +5,8 @@ from __future__ import annotations
 import ast
 
 from sa.astutil import (
+    knows,
+    only_knows,
     loop_exits,
     arg_or_kw,
     call_name,
@@ -447,7 +449,7 @@ def r5_what_empty_empties(ctx):
     ok = len(st_fr) == 1
     if ok:
         ts = enclosing_tests(st_fr[0])
-        ok = "EMPTY_FRAME" in norm(st_fr[0].value) and (not ts or (len(ts) == 1 and ts[0][1] and norm(ts[0][0]) == "not self._frame.empty"))
+        ok = "EMPTY_FRAME" in norm(st_fr[0].value) and (not ts or only_knows(ts, "not self._frame.empty"))
     ctx.check(ok, ce.qual + "#frame", "cluster table reset whenever it is non-empty" if ok else "Charge.empty does not reset the cluster table", where=ce, node=st_fr[0] if st_fr else ce.node)
     # MKID override
     me = ctx.func("pyxel.detectors.mkid.mkid:MKID.empty")
